@@ -162,6 +162,7 @@ class Repo:
             raise AnalysisError(f"package directory missing: {self.pkg}")
         self.modules: dict[str, Module] = {}
         self.classes: dict[str, ClassInfo] = {}
+        self.normalisation: dict[str, dict] = {}
         self._load()
         self._mro_cache: dict[str, list[str]] = {}
 
@@ -180,6 +181,13 @@ class Repo:
                     tree = ast.parse(src, filename=path)
                 except SyntaxError as e:
                     raise AnalysisError(f"{path} does not parse: {e}") from e
+                try:
+                    from .normalize import normalize_module
+
+                    self.normalisation[rel] = normalize_module(rel, tree)
+                except Exception as e:  # a failing normalisation must never take the analysis down: analyse the tree as written
+                    self.normalisation[rel] = {"error": f"{type(e).__name__}: {e}"}
+                    tree = ast.parse(src, filename=path)
                 _canonicalise(tree)
                 mod = Module(rel=rel, path=path, source=src, tree=tree)
                 self._index_module(mod)
